@@ -40,6 +40,16 @@ Theorem poisson_gap_certificate_sound : forall A' base' n lb ub w b x x',
   (nllR w b (predict A' base' x) <= nllR w b (predict A' base' x') + Q2R (pois_gap A' base' n lb ub w b x))%R.
 Proof. exact poisson_gap_sound. Qed.
 Print Assumptions poisson_gap_certificate_sound.
+(* the form the verdict uses: through an (untrusted) reference point x0 the bound is tight to first order *)
+Theorem poisson_reference_certificate_sound : forall A' base' n lb ub w b x x0 x',
+  rect n A' -> length base' = length A' -> length w = length A' -> length b = length A' ->
+  length x = n -> length x0 = n -> length x' = n ->
+  Forall (fun a => 0 <= a) b -> Forall (fun a => 0 <= a) w ->
+  Forall (fun a => 0 < a) (predict A' base' x) -> Forall (fun a => 0 < a) (predict A' base' x0) -> Forall (fun a => 0 < a) (predict A' base' x') ->
+  in_box x' lb ub ->
+  (nllR w b (predict A' base' x) <= nllR w b (predict A' base' x') + Q2R (pois_excess A' base' n lb ub w b x x0))%R.
+Proof. exact poisson_ref_sound. Qed.
+Print Assumptions poisson_reference_certificate_sound.
 (* the likelihood is minimised exactly at predicted capture = target: in-gamut targets are reproduced *)
 Theorem poisson_minimum_is_at_target : forall b p : R, (0 < b)%R -> (0 < p)%R ->
   (b - b * ln b <= p - b * ln p)%R /\ ((b - b * ln b = p - b * ln p)%R -> p = b).
